@@ -129,8 +129,53 @@ def runNcg (j : Json) : Option Json := do
   let trace := tr maxiter 1 ⟨x0, fe0.1, fe0.2⟩ []
   some (jObj [("eager", ej), ("static", sj), ("trace", Json.arr trace.toArray)])
 
+/-- trust-region replay: the sub-problem solver's recorded answers are the oracle (one per iteration) -/
+def runTrust (j : Json) : Option Json := do
+  let x0l ← fRatList? j "x0"
+  let n := x0l.length
+  let x0 ← RVec.ofList? n x0l
+  let poly ← (field? j "poly").bind (listOf? parseMono)
+  if poly.any (fun m => m.e.length != n) then none else
+  let grads : List (List Mono) := (List.range n).map (polyDiff poly)
+  let f : RVec n → Rat × RVec n := fun x =>
+    let xl := x.toList
+    (polyEval poly xl, RVec.ofFn fun i => polyEval (grads.getD i.val []) xl)
+  let maxiter ← fNat? j "maxiter"
+  let absdelta ← optField j "absdelta" getRat?
+  let gtol ← fRat? j "gtol"
+  let maxTr ← fRat? j "maxTr"
+  let initTr ← fRat? j "initTr"
+  let eta ← fRat? j "eta"
+  let eps ← fRat? j "eps"
+  let tc : NewtonRe.TCfg Rat := { maxiter, absdelta, gtol, maxTr, initTr, eta, eps }
+  let subsJ ← (field? j "subs").bind getArr?
+  let subs ← subsJ.mapM fun sj => do
+    let st ← (fRatList? sj "step").bind (RVec.ofList? n)
+    let h ← fBool? sj "hits"
+    let pf ← fRat? sj "predF"
+    some ({ step := st, hits := h, predF := pf } : NewtonRe.SubRes Rat (RVec n))
+  let rec go (fuel : Nat) (subs : List (NewtonRe.SubRes Rat (RVec n))) (p : NewtonRe.TSt Rat (RVec n)) (acc : List Json) :
+      NewtonRe.TSt Rat (RVec n) × List Json × Bool :=
+    match fuel with
+    | 0 => (p, acc.reverse, false)
+    | fuel + 1 =>
+      if p.converged = false ∧ p.status = 0 then
+        match subs with
+        | [] => (p, acc.reverse, true)           -- the real run made fewer sub-problem calls than the model needs
+        | s :: rest =>
+          let fe := f (p.x + s.step)
+          let item := jObj [("actual", ratApprox (p.fn - fe.1)), ("pred", ratApprox (p.fn - s.predF)),
+                            ("f", ratApprox p.fn), ("gmag", ratApprox (l1 fe.2))]
+          go fuel rest (NewtonRe.trustStep tc f l1 (fun _ _ _ _ => s) p) (item :: acc)
+      else (p, acc.reverse, false)
+  let (p, tr, short) := go (maxiter + 1) subs (NewtonRe.trustInit tc f l1 x0) []
+  some (jObj [("x", jApprox p.x.toList), ("fun", ratApprox p.fn), ("status", jInt p.status), ("nit", jNat p.nit),
+              ("tr", ratApprox p.tr), ("converged", Json.bool p.converged), ("short", Json.bool short),
+              ("trace", Json.arr tr.toArray)])
+
 def handle (j : Json) : Json :=
   match fStr? j "op" with
+  | some "trust" => (runTrust j).getD (jErr "bad-args")
   | some "ncg" => (runNcg j).getD (jErr "bad-args")
   | _ => jErr "bad-op"
 
